@@ -242,10 +242,10 @@ func (x *miscLimitsExt) AtQuiescence(w *run) {
 			}
 		}
 		// ---- model ----
-		over := false     // some message on the reached path is over a limit
-		srvMax := 0       // messages the handler may receive at most
-		cliMax := 0       // messages the client may receive at most
-		exact := true     // encoded sizes known to the harness
+		over := false // some message on the reached path is over a limit
+		srvMax := 0   // messages the handler may receive at most
+		cliMax := 0   // messages the client may receive at most
+		exact := true // encoded sizes known to the harness
 		clientPathOK := true
 		for _, n := range cmsgs {
 			enc, ok := miscEncLen(reqEnc, n)
